@@ -81,8 +81,18 @@ def _mid1d(values):
     return lo, hi
 
 
+def int_coord_array(ctx, name, n, nominal, dtype):
+    """Coordinate values stored in an integer type (whole-degree axes): symbolic Ints; the replay builds a real
+    array of that dtype.  Object arrays carry no numeric dtype, so what numpy does *because* of the dtype is seen by
+    the replayed witness of each path only, not by the solver."""
+    arr = numpy.empty((n,), dtype=object if ctx.symbolic else dtype)
+    for k in range(n):
+        arr[k] = ctx.int(f'{name}{k}', -20000, 20000, hint=int(nominal[k]))
+    return arr
+
+
 def build(ctx, conv, shape, *, bounds='none', as_coords=True, nan_cells=None, data=None, mesh_opts=None,
-          dims=None, descending=False):
+          dims=None, descending=False, coord_dtype=None):
     """Construct the dataset for `conv`.  bounds: 'none' | 'stored'.
     nan_cells: set of positions allowed to be missing (None = all, () = none)."""
     from emsarray.conventions.grid import CFGrid1D, CFGrid2D
@@ -98,8 +108,17 @@ def build(ctx, conv, shape, *, bounds='none', as_coords=True, nan_cells=None, da
         nlon = numpy.array([100 + 2 * i + 0.25 * i * i for i in range(nx)])
         if descending:
             nlat, nlon = nlat[::-1].copy(), nlon[::-1].copy()
-        lat = coord_array(ctx, 'lat', (ny,), nominal=nlat)
-        lon = coord_array(ctx, 'lon', (nx,), nominal=nlon)
+        if coord_dtype:
+            # odd spacings: the half-cell midpoints are not whole numbers
+            nlat = numpy.array([-12 + 3 * j + j * j for j in range(ny)])
+            nlon = numpy.array([146 - i - 2 * i * i for i in range(nx)])
+            if descending:
+                nlat, nlon = nlat[::-1].copy(), nlon[::-1].copy()
+            lat = int_coord_array(ctx, 'lat', ny, nlat, coord_dtype)
+            lon = int_coord_array(ctx, 'lon', nx, nlon, coord_dtype)
+        else:
+            lat = coord_array(ctx, 'lat', (ny,), nominal=nlat)
+            lon = coord_array(ctx, 'lon', (nx,), nominal=nlon)
         kw = {}
         if bounds == 'stored':
             latb = coord_array(ctx, 'latb', (ny, 2), nominal=numpy.stack([nlat - 0.375, nlat + 0.5], axis=-1))
